@@ -480,6 +480,22 @@ func (c *UDPConn) Inject(b []byte) {
 	c.mu.Unlock()
 }
 
+// TakeSentTo returns and removes the datagrams written to addr so far (lab side).
+func (c *UDPConn) TakeSentTo(addr string) []Datagram {
+	c.mu.Lock()
+	defer c.mu.Unlock()
+	var out, rest []Datagram
+	for _, d := range c.Sent {
+		if d.To == addr {
+			out = append(out, d)
+		} else {
+			rest = append(rest, d)
+		}
+	}
+	c.Sent = rest
+	return out
+}
+
 // TakeSent returns and clears the datagrams written so far (lab side).
 func (c *UDPConn) TakeSent() []Datagram {
 	c.mu.Lock()
